@@ -193,7 +193,7 @@ int main(void)
                     memmove(out_at, out_at + 1, (out_n - 1) * sizeof out_at[0]); memmove(out_id, out_id + 1, (out_n - 1) * sizeof out_id[0]); out_n--;
                 } else printf("mqconfirm none\n");
             }
-            else if (!strcmp(sub, "unconf")) { printf("mqunconf %d\n", MessageQueue_hasUnconfirmedIMessages(mq)); }
+            /* `mq unconf` (MessageQueue_hasUnconfirmedIMessages) is gone: the library removed that function (fix e71fc44) */
             else if (!strcmp(sub, "avail")) { printf("mqavail %d\n", MessageQueue_isAsduAvailable(mq)); }
             else if (!strcmp(sub, "resetwait")) { MessageQueue_setWaitingForTransmissionWhenNotConfirmed(mq); out_n = 0; }
             else if (!strcmp(sub, "release")) { MessageQueue_releaseAllQueuedASDUs(mq); out_n = 0; }
